@@ -34,7 +34,7 @@ def _gen_side_objects(rng, tname, cols, others, want):
     return idxs, uqs, fks
 
 
-def gen_pair(rng, big=False, with_schema=False, c06_class=False, doubled=False, table_opts=False):
+def gen_pair(rng, big=False, with_schema=False, c06_class=False, doubled=False, table_opts=False, comments=False):
     """returns {"schemas": [...], "conn": [tbl...], "meta": [tbl...]} where a tbl is
     {schema,name,cols:[{name,ty,nullable}],idxs:[{name,unique,cols}],uqs:[{name,cols}],fks:[{name,col,ref,ondelete}]}"""
     ntab = rng.randint(1, 5 if big else 4)
@@ -61,10 +61,18 @@ def gen_pair(rng, big=False, with_schema=False, c06_class=False, doubled=False, 
             ty = rng.choice(list(TYPES))
             nullable = rng.random() < 0.6
             col = {"name": c, "ty": ty, "nullable": nullable, "pk": False}
+            if table_opts:
+                # (C09) server defaults and an explicit autoincrement flag, so that alter_column ops carry them
+                if rng.random() < 0.35:
+                    col["default"] = rng.choice(["0", "5"]) if ty == "INTEGER" else rng.choice(["'abc'", "'x y'"])
+                if ty == "INTEGER" and rng.random() < 0.2:
+                    col["autoinc"] = rng.random() < 0.5
             if where in ("both", "conn"):
                 ccols.append(dict(col))
             if where in ("both", "meta"):
                 m = dict(col)
+                if table_opts and where == "both" and rng.random() < 0.3 and m["ty"] == ty:
+                    m["default"] = rng.choice([None, "7" if ty == "INTEGER" else "'zz'"])
                 if where == "both" and rng.random() < 0.35:
                     if rng.random() < 0.5:
                         m["nullable"] = not nullable
@@ -125,6 +133,13 @@ def gen_pair(rng, big=False, with_schema=False, c06_class=False, doubled=False, 
                 muq.append({"name": None, "cols": mc})
         conn_t = {"schema": s, "name": n, "cols": ccols, "idxs": cidx, "uqs": cuq, "fks": cfk}
         meta_t = {"schema": s, "name": n, "cols": mcols, "idxs": midx, "uqs": muq, "fks": mfk}
+        if comments:
+            # only the model side can carry comments (SQLite stores none): a dialect "with comments" sees them as added
+            if rng.random() < 0.5:
+                meta_t["comment"] = "about %s" % n
+            for c in mcols:
+                if c["name"] != "id" and rng.random() < 0.25:
+                    c["comment"] = "col %s" % c["name"]
         if table_opts and rng.random() < 0.4:
             # SQLite table option (same on both sides: autogenerate does not compare it)
             conn_t["without_rowid"] = meta_t["without_rowid"] = True
@@ -226,27 +241,45 @@ def gen_pair(rng, big=False, with_schema=False, c06_class=False, doubled=False, 
                     seen.add(u["name"])
                     out.append(u)
                 t["uqs"] = out
-    return {"schemas": schemas, "conn": conn, "meta": meta}
+    return {"schemas": schemas, "conn": conn, "meta": meta, "comments": bool(comments)}
 
 
 # ------------------------------------------------------------------ building the two sides
 
-def build_metadata(tables):
+def build_metadata(tables, split=False):
+    """one MetaData, or (split) a list of two: tables that neither have nor receive a foreign key go to the second"""
     md = sa.MetaData()
+    md2 = sa.MetaData()
+    referenced = {(t["schema"], f["ref"]) for t in tables for f in t["fks"]}
     for t in tables:
+        target = md2 if split and not t["fks"] and (t["schema"], t["name"]) not in referenced else md
+        _build_table(target, t)
+    return [md, md2] if split else md
+
+
+def _build_table(md, t):
+    if True:
         args = []
         for c in t["cols"]:
-            args.append(sa.Column(c["name"], TYPES[c["ty"]](), nullable=c["nullable"], primary_key=c.get("pk", False)))
+            ckw = {}
+            if c.get("default") is not None:
+                ckw["server_default"] = sa.text(c["default"])
+            if c.get("autoinc") is not None:
+                ckw["autoincrement"] = c["autoinc"]
+            if c.get("comment") is not None:
+                ckw["comment"] = c["comment"]
+            args.append(sa.Column(c["name"], TYPES[c["ty"]](), nullable=c["nullable"], primary_key=c.get("pk", False), **ckw))
         for u in t["uqs"]:
             args.append(sa.UniqueConstraint(*u["cols"], name=u["name"]))
         for f in t["fks"]:
             ref = "%s.%s.id" % (t["schema"], f["ref"]) if t["schema"] else "%s.id" % f["ref"]
             args.append(sa.ForeignKeyConstraint([f["col"]], [ref], name=f["name"], ondelete=f["ondelete"]))
         tkw = {"sqlite_with_rowid": False} if t.get("without_rowid") else {}
+        if t.get("comment") is not None:
+            tkw["comment"] = t["comment"]
         tb = sa.Table(t["name"], md, *args, schema=t["schema"], **tkw)
         for i in t["idxs"]:
             sa.Index(i["name"], *[tb.c[c] for c in i["cols"]], unique=i["unique"])
-    return md
 
 
 def fk_sig(col, ref, ondelete):
@@ -298,7 +331,7 @@ def col_differ(pair):
         cc = {x["name"]: x for x in c["cols"]}
         for x in m["cols"]:
             y = cc.get(x["name"])
-            if y and (y["ty"], y["nullable"]) != (x["ty"], x["nullable"]):
+            if y and ((y["ty"], y["nullable"]) != (x["ty"], x["nullable"]) or (pair.get("comments") and x.get("comment") is not None)):
                 out.append({"schema": m["schema"], "table": m["name"], "col": x["name"]})
     return out
 
@@ -313,6 +346,15 @@ def table_options(conn, schemas):
     return out
 
 
+def table_comment_differ(pair):
+    """tables on both sides whose model carries a comment (the SQLite side never has one)"""
+    if not pair.get("comments"):
+        return []
+    ck = {(t["schema"], t["name"]) for t in pair["conn"]}
+    return [{"schema": m["schema"], "table": m["name"]} for m in pair["meta"]
+            if m.get("comment") is not None and (m["schema"], m["name"]) in ck]
+
+
 def make_db(pair):
     eng = sa.create_engine("sqlite://")
     conn = eng.connect()
@@ -324,7 +366,7 @@ def make_db(pair):
 
 # ------------------------------------------------------------------ predicates
 
-def _rule_matches(r, name, ty, schema, table, reflected=None, has_ct=None, is_obj=False):
+def _rule_matches(r, name, ty, schema, table, reflected=None, has_ct=None, is_obj=False, qualified=None):
     if r.get("ty") is not None and r["ty"] != ty:
         return False
     if r.get("name") is not None and name != r["name"]:
@@ -341,6 +383,8 @@ def _rule_matches(r, name, ty, schema, table, reflected=None, has_ct=None, is_ob
         return False
     if r.get("schemaIsNone") and schema is not None:
         return False
+    if r.get("qualified") is not None and qualified != r["qualified"]:
+        return False
     if is_obj:
         if r.get("reflected") is not None and r["reflected"] != reflected:
             return False
@@ -349,9 +393,9 @@ def _rule_matches(r, name, ty, schema, table, reflected=None, has_ct=None, is_ob
     return True
 
 
-def eval_rules(pred, name, ty, schema, table, reflected=None, has_ct=None, is_obj=False):
+def eval_rules(pred, name, ty, schema, table, reflected=None, has_ct=None, is_obj=False, qualified=None):
     for r in pred["rules"]:
-        if _rule_matches(r, name, ty, schema, table, reflected, has_ct, is_obj):
+        if _rule_matches(r, name, ty, schema, table, reflected, has_ct, is_obj, qualified):
             return bool(r["verdict"])
     return bool(pred["default"])
 
@@ -378,7 +422,8 @@ def make_name_callable(pred, calls):
         nm = None if name is None else str(name)
         schema = parent_names.get("schema_name")
         table = parent_names.get("table_name")
-        v = eval_rules(pred, nm, type_, schema, table)
+        # parent_names["schema_qualified_table_name"] is computed by run_name_filters for the hook
+        v = eval_rules(pred, nm, type_, schema, table, qualified=parent_names.get("schema_qualified_table_name"))
         calls.append(("name", nm, type_, schema, table, v))
         return v
 
@@ -407,7 +452,8 @@ def gen_pred(rng, pair, is_obj):
     types = OBJ_TYPES if is_obj else NAME_TYPES
     uni = universe(pair)
     tnames = sorted({t["name"] for s in ("conn", "meta") for t in pair[s]})
-    fam = rng.choice(["all", "type", "prefix", "flag" if is_obj else "schema", "table", "truth", "truth", "mixed", "mixed"])
+    fam = rng.choice(["all", "type", "prefix", "flag" if is_obj else "schema", "table" if is_obj else "qualified", "table", "truth",
+                      "truth", "mixed", "mixed"])
     rules = []
     default = True
     if fam == "type":
@@ -432,6 +478,9 @@ def gen_pred(rng, pair, is_obj):
         else:
             r["name"] = "s2"
         rules.append(r)
+    elif fam == "qualified":
+        tn = rng.choice(tnames)
+        rules.append({"qualified": rng.choice([tn, "s2." + tn]), "verdict": False})
     elif fam == "table":
         r = {"table": rng.choice(tnames), "verdict": False}
         if rng.random() < 0.5:
@@ -540,19 +589,135 @@ def op_sort_key(o):
     return (o["kind"], o["schema"] or "", o["table"], o["name"] or "", o["sig"])
 
 
-def run_autogen(conn, metadata, obj_pred=None, name_pred=None, include_schemas=False, calls=None):
+def canon_diffs(diffs):
+    """the same canonical targets from compare_metadata()'s diff tuples"""
+    out = []
+
+    def ixcols(ix):
+        return ",".join(getattr(e, "name", str(e)) for e in ix.expressions)
+
+    for d in diffs:
+        if isinstance(d, list):
+            if d:
+                out.append({"kind": "alterColumn", "schema": d[0][1], "table": d[0][2], "name": d[0][3], "sig": ""})
+            continue
+        k = d[0]
+        if k in ("add_table", "remove_table"):
+            out.append({"kind": "createTable" if k == "add_table" else "dropTable", "schema": d[1].schema, "table": d[1].name,
+                        "name": d[1].name, "sig": ""})
+        elif k in ("add_column", "remove_column"):
+            out.append({"kind": "addColumn" if k == "add_column" else "dropColumn", "schema": d[1], "table": d[2], "name": d[3].name, "sig": ""})
+        elif k in ("add_index", "remove_index"):
+            out.append({"kind": "createIndex" if k == "add_index" else "dropIndex", "schema": d[1].table.schema, "table": d[1].table.name,
+                        "name": d[1].name, "sig": ixcols(d[1])})
+        elif k in ("add_constraint", "remove_constraint"):
+            out.append({"kind": "addUq" if k == "add_constraint" else "dropUq", "schema": d[1].table.schema, "table": d[1].table.name,
+                        "name": None if d[1].name is None or type(d[1].name).__name__ == "_NoneName" else d[1].name,
+                        "sig": ",".join(sorted(c.name for c in d[1].columns))})
+        elif k in ("add_fk", "remove_fk"):
+            c = d[1]
+            out.append({"kind": "addFk" if k == "add_fk" else "dropFk", "schema": c.table.schema, "table": c.table.name,
+                        "name": None if c.name is None or type(c.name).__name__ == "_NoneName" else c.name,
+                        "sig": fk_sig(c.column_keys[0], c.elements[0].target_fullname.split(".")[-2], c.ondelete)})
+        elif k in ("add_table_comment", "remove_table_comment"):
+            out.append({"kind": "tableComment", "schema": d[1].schema, "table": d[1].name, "name": d[1].name, "sig": ""})
+        else:
+            out.append({"kind": "other:" + str(k), "schema": None, "table": "", "name": None, "sig": ""})
+    for o in out:
+        if o["name"] is not None:
+            o["name"] = str(o["name"])
+    return out
+
+
+class ScriptEnv:
+    """a scratch script directory whose env.py calls EnvironmentContext.configure(...) with what the harness puts into
+    config.attributes: `alembic revision --autogenerate` end to end (RevisionContext, env.py, configure), nothing written"""
+
+    ENV_PY = (
+        "from alembic import context\n"
+        "a = context.config.attributes\n"
+        "kw = dict(connection=a['connection'], target_metadata=a['metadata'], include_schemas=a['include_schemas'],\n"
+        "          process_revision_directives=a['prd'])\n"
+        "if a.get('include_object') is not None:\n"
+        "    kw['include_object'] = a['include_object']\n"
+        "if a.get('include_name') is not None:\n"
+        "    kw['include_name'] = a['include_name']\n"
+        "context.configure(**kw)\n"
+        "with context.begin_transaction():\n"
+        "    context.run_migrations()\n"
+    )
+
+    def __init__(self):
+        import io
+        import os
+        import tempfile
+        from alembic import command
+        from alembic.config import Config
+        self.tmp = tempfile.mkdtemp(prefix="verif_c20_")
+        self.cfg = Config(os.path.join(self.tmp, "alembic.ini"), stdout=io.StringIO())
+        self.cfg.set_main_option("script_location", os.path.join(self.tmp, "scripts"))
+        import contextlib
+        with contextlib.redirect_stdout(io.StringIO()):
+            command.init(self.cfg, os.path.join(self.tmp, "scripts"))
+        with open(os.path.join(self.tmp, "scripts", "env.py"), "w") as f:
+            f.write(self.ENV_PY)
+
+    def autogenerate(self, conn, metadata, include_object, include_name, include_schemas):
+        from alembic import command
+        got = {}
+
+        def prd(context, revision, directives):
+            got["script"] = directives[0]
+            directives[:] = []          # nothing is written
+
+        self.cfg.attributes.update(connection=conn, metadata=metadata, include_object=include_object,
+                                   include_name=include_name, include_schemas=include_schemas, prd=prd)
+        command.revision(self.cfg, autogenerate=True)
+        return got["script"]
+
+    def close(self):
+        import shutil
+        shutil.rmtree(self.tmp, ignore_errors=True)
+
+
+def run_autogen(conn, metadata, obj_pred=None, name_pred=None, include_schemas=False, calls=None, via="produce", env=None,
+                no_uq_reflection=False):
+    """via: 'produce' (produce_migrations), 'compare' (compare_metadata diff tuples), 'command' (alembic revision
+    --autogenerate through env.py / EnvironmentContext.configure)"""
     opts = {"target_metadata": metadata, "include_schemas": include_schemas}
     calls = calls if calls is not None else []
-    if obj_pred is not None:
-        opts["include_object"] = make_obj_callable(obj_pred, calls)
-    if name_pred is not None:
-        opts["include_name"] = make_name_callable(name_pred, calls)
-    mc = MigrationContext.configure(conn, opts=opts)
-    with warnings.catch_warnings():
-        warnings.simplefilter("ignore")
-        script = ag_api.produce_migrations(mc, metadata)
-    ops_ = canon_ops(script.upgrade_ops)
-    n_diffs = len([d for d in script.upgrade_ops.as_diffs()])
+    io_ = make_obj_callable(obj_pred, calls) if obj_pred is not None else None
+    in_ = make_name_callable(name_pred, calls) if name_pred is not None else None
+    if io_ is not None:
+        opts["include_object"] = io_
+    if in_ is not None:
+        opts["include_name"] = in_
+    dialect = conn.dialect
+    if no_uq_reflection:
+        # a dialect that cannot reflect unique constraints (Inspector.get_unique_constraints -> NotImplementedError)
+        def _no(*a, **k):
+            raise NotImplementedError()
+        dialect.get_unique_constraints = _no
+    try:
+        with warnings.catch_warnings():
+            warnings.simplefilter("ignore")
+            if via == "command":
+                script = env.autogenerate(conn, metadata, io_, in_, include_schemas)
+                ops_ = canon_ops(script.upgrade_ops)
+                n_diffs = len(script.upgrade_ops.as_diffs())
+            elif via == "compare":
+                mc = MigrationContext.configure(conn, opts=opts)
+                diffs = ag_api.compare_metadata(mc, metadata)
+                ops_ = canon_diffs(diffs)
+                n_diffs = len(diffs)
+            else:
+                mc = MigrationContext.configure(conn, opts=opts)
+                script = ag_api.produce_migrations(mc, metadata)
+                ops_ = canon_ops(script.upgrade_ops)
+                n_diffs = len(script.upgrade_ops.as_diffs())
+    finally:
+        if no_uq_reflection:
+            del dialect.get_unique_constraints
     return sorted(ops_, key=op_sort_key), n_diffs
 
 
